@@ -2,14 +2,20 @@
 
    declarator() parses a parenthesised inner declarator first with `Type dummy = {}` only to find the ")" behind
    it, and later again with the real type.  That is right only if the tokens a declarator consumes, the identifier
-   it finds and whether it fails do not depend on the type passed in.  This holds for all five mutually recursive
-   functions of the model, for every token list and every fuel (no well-formedness assumption). *)
+   it finds and whether it fails do not depend on the type passed in.  Since fix fbdf355 one thing does depend on
+   the type: the "array too large" test reads ty->size.  So the statement is: for all five mutually recursive
+   functions of the model, every token list and every fuel, two runs that differ only in the type passed in agree
+   on the tokens consumed, the identifier and the kind of failure - UNLESS one of them reports "array too large"
+   (which ends the compilation anyway; DeclaratorSizes.v, chk_dummy, shows that on written declarators the dummy
+   pass never reports it when the real pass would not). *)
 From Coq Require Import List ZArith Bool Lia.
 From Chibicc Require Import Spec.DeclSyntax Spec.DeclSpec6_7_6 Model.Declarator Proofs.DeclaratorParse.
 Import ListNotations.
 
 Definition sim_d (a b : res (option ident * mty * list tok)) : Prop :=
   match a, b with
+  | TooLarge, _ => True
+  | _, TooLarge => True
   | Ok r, Ok r' => fst (fst r) = fst (fst r') /\ snd r = snd r'
   | Err, Err => True
   | OutOfFuel, OutOfFuel => True
@@ -17,6 +23,8 @@ Definition sim_d (a b : res (option ident * mty * list tok)) : Prop :=
   end.
 Definition sim_s (a b : res (mty * list tok)) : Prop :=
   match a, b with
+  | TooLarge, _ => True
+  | _, TooLarge => True
   | Ok r, Ok r' => snd r = snd r'
   | Err, Err => True
   | OutOfFuel, OutOfFuel => True
@@ -31,9 +39,6 @@ Proof.
   - destruct b; [apply IH|reflexivity].
 Qed.
 
-Lemma sim_d_refl : forall a, sim_d a a.
-Proof. intros [[[n m] r]| |]; cbn; auto. Qed.
-
 Definition indep (f : nat) : Prop :=
   (forall toks ty ty', sim_d (declarator f toks ty) (declarator f toks ty')) /\
   (forall toks ty ty', sim_s (type_suffix f toks ty) (type_suffix f toks ty')) /\
@@ -42,11 +47,10 @@ Definition indep (f : nat) : Prop :=
   (forall toks ty ty' acc acc', is_nil acc = is_nil acc' ->
      sim_s (params_loop f toks ty acc) (params_loop f toks ty' acc')).
 
-Lemma sim_s_bind : forall a b (k k' : mty * list tok -> res (mty * list tok)),
-  sim_s a b -> (forall r r', snd r = snd r' -> sim_s (k r) (k' r')) -> sim_s (bind a k) (bind b k').
-Proof.
-  intros a b k k' H Hk. destruct a as [r| |], b as [r'| |]; cbn in *; try contradiction; auto.
-Qed.
+Lemma sim_s_TooLarge_r : forall a, sim_s a TooLarge.
+Proof. intros [r| | |]; exact I. Qed.
+Lemma sim_d_TooLarge_r : forall a, sim_d a TooLarge.
+Proof. intros [r| | |]; exact I. Qed.
 
 Theorem independent_of_type : forall f, indep f.
 Proof.
@@ -62,30 +66,31 @@ Proof.
       rewrite (pointers_snd toks false ty ty').
       set (t1 := snd (pointers false toks ty')).
       set (a := fst (pointers false toks ty)). set (a' := fst (pointers false toks ty')).
-      clearbody t1 a a'.
-      assert (Hdef : sim_d (let nm := ident_opt t1 in do r2 <- type_suffix f (snd nm) a; Ok (fst nm, fst r2, snd r2))
-                           (let nm := ident_opt t1 in do r2 <- type_suffix f (snd nm) a'; Ok (fst nm, fst r2, snd r2))).
-      { cbv zeta. pose proof (IHs (snd (ident_opt t1)) a a') as H.
-        destruct (type_suffix f (snd (ident_opt t1)) a) as [r| |], (type_suffix f (snd (ident_opt t1)) a') as [r'| |];
-          cbn in *; try contradiction; auto. }
-      destruct t1 as [|t t1]; [exact Hdef|]. destruct t; try exact Hdef.
-      cbn [direct_part].
-      destruct (declarator f t1 dummy) as [r1| |]; cbn [bind]; try exact I.
-      destruct (snd r1) as [|t t3]; [exact I|]. destruct t; try exact I.
-      pose proof (IHs t3 a a') as H.
-      destruct (type_suffix f t3 a) as [r2| |], (type_suffix f t3 a') as [r2'| |]; cbn in *; try contradiction; auto.
-      pose proof (IHd t1 (fst r2) (fst r2')) as H'.
-      destruct (declarator f t1 (fst r2)) as [r3| |], (declarator f t1 (fst r2')) as [r3'| |];
-        cbn in *; try contradiction; auto. split; [exact (proj1 H')|exact H].
+      clearbody t1 a a'. unfold direct_part.
+      destruct (nested_start t1) as [inner|].
+      * destruct (declarator f inner dummy) as [r1| | |]; cbn [bind]; try exact I.
+        destruct (snd r1) as [|t t3]; [exact I|]. destruct t; try exact I.
+        pose proof (IHs t3 a a') as H.
+        destruct (type_suffix f t3 a) as [r2| | |], (type_suffix f t3 a') as [r2'| | |]; cbn in *; try contradiction; auto.
+        -- pose proof (IHd inner (fst r2) (fst r2')) as H'.
+           destruct (declarator f inner (fst r2)) as [r3| | |], (declarator f inner (fst r2')) as [r3'| | |];
+             cbn in *; try contradiction; auto. split; [exact (proj1 H')|exact H].
+        -- destruct (declarator f inner (fst r2)) as [r3| | |]; exact I.
+      * cbv zeta. pose proof (IHs (snd (ident_opt t1)) a a') as H.
+        destruct (type_suffix f (snd (ident_opt t1)) a) as [r| | |], (type_suffix f (snd (ident_opt t1)) a') as [r'| | |];
+          cbn in *; try contradiction; auto.
     + (* array_dimensions *)
       intros toks ty ty'. rewrite !array_dimensions_S. unfold array_dimensions_body.
-      destruct (skip_static_restrict toks) as [|t r]; [exact I|].
+      destruct (skip_static_quals toks) as [|t r]; [exact I|].
       destruct t; try exact I.
       * pose proof (IHs r ty ty') as H.
-        destruct (type_suffix f r ty) as [r2| |], (type_suffix f r ty') as [r2'| |]; cbn in *; try contradiction; auto.
+        destruct (type_suffix f r ty) as [r2| | |], (type_suffix f r ty') as [r2'| | |]; cbn in *; try contradiction; auto.
       * destruct r as [|t r]; [exact I|]. destruct t; try exact I.
         pose proof (IHs r ty ty') as H.
-        destruct (type_suffix f r ty) as [r2| |], (type_suffix f r ty') as [r2'| |]; cbn in *; try contradiction; auto.
+        destruct (type_suffix f r ty) as [r2| | |], (type_suffix f r ty') as [r2'| | |]; cbn [bind] in *;
+          try contradiction; try exact I.
+        -- destruct (too_large n (fst r2)), (too_large n (fst r2')); cbn; auto.
+        -- destruct (too_large n (fst r2)); exact I.
     + (* func_params *)
       intros toks ty ty'. rewrite !func_params_S. unfold func_params_body.
       assert (Hl : sim_s (params_loop f toks ty []) (params_loop f toks ty' [])) by (apply IHl; reflexivity).
@@ -101,13 +106,13 @@ Proof.
                            (let ds := param_declspec t1 in
                             do r1 <- declarator f (snd ds) (fst ds);
                             params_loop f (snd r1) ty' ((fst (fst r1), adjust_param (snd (fst r1))) :: acc'))).
-        { cbv zeta. destruct (declarator f (snd (param_declspec t1)) (fst (param_declspec t1))) as [r1| |];
+        { cbv zeta. destruct (declarator f (snd (param_declspec t1)) (fst (param_declspec t1))) as [r1| | |];
             cbn [bind]; try exact I. apply IHl. reflexivity. }
         destruct t1 as [|t t1]; [exact Hd|]. destruct t; try exact Hd.
-        destruct (skip_tok_rparen t1) as [r'| |]; cbn; auto. }
+        destruct (skip_tok_rparen t1) as [r'| | |]; cbn; auto. }
       assert (Hrest : sim_s (do t1 <- (if is_nil acc then Ok toks else skip_tok_comma toks); param_step f t1 ty acc)
                             (do t1 <- (if is_nil acc then Ok toks else skip_tok_comma toks); param_step f t1 ty' acc')).
-      { destruct (if is_nil acc then Ok toks else skip_tok_comma toks) as [t1| |]; cbn [bind]; try exact I. apply Hstep. }
+      { destruct (if is_nil acc then Ok toks else skip_tok_comma toks) as [t1| | |]; cbn [bind]; try exact I. apply Hstep. }
       destruct toks as [|t toks]; [exact Hrest|]. destruct t; try exact Hrest. reflexivity.
 Qed.
 
@@ -126,14 +131,13 @@ Proof.
   set (a := fst (pointers false toks ty)). set (a' := fst (pointers false toks ty')).
   clearbody t1 a a'.
   pose proof (proj1 (proj2 (independent_of_type f))) as IHs.
-  assert (Hdef : sim_s (type_suffix f t1 a) (type_suffix f t1 a')) by apply IHs.
-  destruct t1 as [|t t1]; [exact Hdef|]. destruct t; try exact Hdef.
-  cbn [abstract_part].
-  destruct (abstract_declarator f t1 dummy) as [r1| |]; cbn [bind]; try exact I.
+  unfold abstract_part. destruct (nested_start t1) as [inner|]; [|apply IHs].
+  destruct (abstract_declarator f inner dummy) as [r1| | |]; cbn [bind]; try exact I.
   destruct (snd r1) as [|t t3]; [exact I|]. destruct t; try exact I.
   pose proof (IHs t3 a a') as H.
-  destruct (type_suffix f t3 a) as [r2| |], (type_suffix f t3 a') as [r2'| |]; cbn in *; try contradiction; auto.
-  pose proof (IH t1 (fst r2) (fst r2')) as H'.
-  destruct (abstract_declarator f t1 (fst r2)) as [r3| |], (abstract_declarator f t1 (fst r2')) as [r3'| |];
-    cbn in *; try contradiction; auto.
+  destruct (type_suffix f t3 a) as [r2| | |], (type_suffix f t3 a') as [r2'| | |]; cbn in *; try contradiction; auto.
+  - pose proof (IH inner (fst r2) (fst r2')) as H'.
+    destruct (abstract_declarator f inner (fst r2)) as [r3| | |], (abstract_declarator f inner (fst r2')) as [r3'| | |];
+      cbn in *; try contradiction; auto.
+  - destruct (abstract_declarator f inner (fst r2)) as [r3| | |]; exact I.
 Qed.
